@@ -185,7 +185,7 @@ class RandomHistory(object):
                  "disconnect": 4, "registered": 2, "stats": 2, "noise": 1, "reannounce": 3, "dupdata": 3, "reload": 0}
 
     def __init__(self, rng, session, ids, weights=None, boundary=0.3, reply_kinds=None, ips=None, wellformed_pw=0.8,
-                 max_open=None, negative_ids=False, alt_services=None):
+                 max_open=None, negative_ids=False, alt_services=None, vary_addr=0.0):
         self.rng = rng
         self.s = session
         self.ids = list(ids)
@@ -197,14 +197,15 @@ class RandomHistory(object):
         self.ips = ips or (IPS4 + IPS6)
         self.wellformed_pw = wellformed_pw
         self.sent = {}       # id -> set of data items sent
-        self.addr_of = {}    # id -> (ip, port): an id is always announced with the same address within one history
+        self.addr_of = {}    # id -> (ip, port) of its last announcement
+        self.vary_addr = vary_addr   # probability that a re-used id comes back with another address / port (needs step attribution)
         self.max_open = max_open
         self.alt_services = alt_services or []
         self.answered = []   # (svc, tag) pairs that were answered once already
 
     def announce_ev(self, cid):
-        if cid not in self.addr_of:
-            self.addr_of[cid] = (self.rng.choice(self.ips), self.rng.choice([1, 1024, 40000, 65535, 0]))
+        if cid not in self.addr_of or self.rng.random() < self.vary_addr:
+            self.addr_of[cid] = (self.rng.choice(self.ips), self.rng.choice([1, 1024, 40000, 65535, 0, 6667, 113]))
         ip, port = self.addr_of[cid]
         self.sent[cid] = set()
         return {"t": "announce", "id": cid, "ip": ip, "port": port}
@@ -302,6 +303,23 @@ class RandomHistory(object):
             self.s.do(ev)
             done += 1
         return done
+
+
+def reload_tables(rng, services, extra=2, n=4):
+    """Service tables a SIGUSR1 reload may switch to: subsets of one universe (the initial table plus `extra` new names) in
+    which a name keeps its protocol, so that what a retired service still owes stays well defined."""
+    names = ["login.svc", "drone.svc", "ipr.svc", "combo.svc", "Alpha.Net", "zeta.example.org", "late.svc", "extra.example.net"]
+    uni = [tuple(x) for x in services]
+    for nm in names:
+        if len(uni) >= len(services) + extra:
+            break
+        if nm.lower() not in [u[0].lower() for u in uni]:
+            uni.append((nm, rng.choice(proto.PROTOS)))
+    out = []
+    for _ in range(n):
+        k = rng.randint(0, len(uni))
+        out.append(sorted(rng.sample(uni, k), key=lambda x: uni.index(x)))
+    return out
 
 
 def service_tables(rng, k=None):
